@@ -97,7 +97,17 @@ def open_writer(d, strategy):
 
 
 def writer_canon(acc):
-    """full writer state: every field of every MiniShard"""
+    """full writer state: every field of every MiniShard. If the writer's
+    internals are refactored the fallback is a pickle of the whole object
+    graph (over-fine at worst, which only costs time, never soundness)."""
+    try:
+        return _writer_canon_fields(acc)
+    except AttributeError:
+        import pickle
+        return hashlib.sha256(pickle.dumps(acc.__dict__)).hexdigest()
+
+
+def _writer_canon_fields(acc):
     items = []
     for skey, scale in sorted(acc.shard_dict.items()):
         for shk, shard in sorted(scale.shard_dict.items(),
